@@ -535,7 +535,9 @@ var realCheck = &core.Check{Name: "c16/real", Fn: func(c *core.Ctx) error {
 	})
 	var hashesByWay [2][]tlb.Bits256
 	for way := 0; way < 2; way++ {
-		cells, err := boc.DeserializeBoc(data)
+		// the bytes are the caller's: it reads the next block into the same buffer once this one is decoded
+		buf := append([]byte(nil), data...)
+		cells, err := boc.DeserializeBoc(buf)
 		if err != nil {
 			return err
 		}
@@ -547,6 +549,9 @@ var realCheck = &core.Check{Name: "c16/real", Fn: func(c *core.Ctx) error {
 		}
 		if err != nil {
 			return fmt.Errorf("real block does not decode: %v", err)
+		}
+		for i := range buf {
+			buf[i] = 0xA5
 		}
 		seen := map[tlb.Bits256]bool{}
 		for _, tx := range block.AllTransactions() {
